@@ -562,6 +562,7 @@ func c10Outbound(r *vfRun) {
 		handler string // the handler method that fails
 		e       c10Err
 		setup   bool
+		partial bool // the failing ReadAt has already produced some bytes: (n>0, err)
 	}
 	var steps []step
 	slot := 0
@@ -588,6 +589,7 @@ func c10Outbound(r *vfRun) {
 			switch op.K {
 			case "readat":
 				s.op, s.handler = vfOp{K: "readat", H: slot, Off: 3, N: 5}, "ReadAt"
+				s.partial = op.B == 1
 			case "writeat":
 				s.op, s.handler = vfOp{K: "writeat", H: slot, Off: 3, N: 5}, "WriteAt"
 			default:
@@ -653,6 +655,9 @@ func c10Outbound(r *vfRun) {
 			fs.mu.Unlock()
 			fs.planFault(s.handler, n, s.e.err)
 		}
+		fs.mu.Lock()
+		fs.partialErr = s.partial
+		fs.mu.Unlock()
 		before := nFaults()
 		results[i] = env.do(s.op)
 		faultFired[i] = nFaults() > before
